@@ -165,3 +165,27 @@ Proof.
   intros evs. split; [exact (gen_unsigned64_run_refines evs)|split; [exact (gen_signed64_run_refines evs)|exact (gen_float64_run_refines evs)]].
 Qed.
 Print Assumptions C07_regenerated_codec_in_the_loop.
+
+(* which codec each numeric tree holds (Gen/Bindings.v, regenerated from the struct declarations of trees.go): the
+   unsigned / signed / float tree holds an UnsignedBinaryKey / SignedBinaryKey / FloatBinaryKey — the type whose
+   regenerated Transform / Restore (Gen/KeysGen.v) the end-to-end theorem of that kind runs — and its constructor
+   passes nothing, so the codec is that type's (stateless) zero value *)
+From GoArt Require Import Proofs.BindingFacts.
+From GoArt Require Gen.Bindings.
+From Coq Require Import String.
+Local Open Scope string_scope.
+Theorem C07_tree_codec_bindings :
+  map (fun s => (fst s, map snd (codec_fields (snd s)))) Bindings.tree_structs =
+  [("alphaSortedTree", ["AlphabeticalOrderKey[K]"]);
+   ("collationSortedTree", ["CollationOrderKey[K]"]);
+   ("compoundSortedTree", ["BinaryComparableKey[K]"]);
+   ("floatSortedTree", ["FloatBinaryKey[K]"]);
+   ("signedSortedTree", ["SignedBinaryKey[K]"]);
+   ("unsignedSortedTree", ["UnsignedBinaryKey[K]"])]%string.
+Proof. exact tree_codec_bindings. Qed.
+Print Assumptions C07_tree_codec_bindings.
+Theorem C07_stateless_kinds_take_nothing :
+  forallb (fun c => if existsb (String.eqb (ctor_tree c)) ["alphaSortedTree"; "unsignedSortedTree"; "signedSortedTree"; "floatSortedTree"]%string
+                    then Nat.eqb (List.length (ctor_fields c)) 0 else true) Bindings.constructors = true.
+Proof. exact stateless_kinds_take_nothing. Qed.
+Print Assumptions C07_stateless_kinds_take_nothing.
